@@ -234,6 +234,9 @@ def _alphabet(f, quick, salt, idx):
         if not s:
             return []
         out = [("list:1", [s]), ("list:1", [m]), ("list:2", [s, s]), ("list:2", [s, m]), ("list:2", [first, first]), ("list:3", [s, s, s]), ("list:3", [m, s, first])]
+        # a list item with every field unset encodes to zero bytes: [<unset>, X] is canonically `00 00 X` (a *trailing* unset item is outside
+        # the quantifier: it is indistinguishable from a shorter list on the wire)
+        out += [("list:2:unset-item-first", [{}, s]), ("list:3:unset-item-middle", [s, {}, m]), ("list:3:unset-items-first", [{}, {}, s])]
         if _has_var(c):
             b = _gen(c, "big", salt)
             out += [("list:1:item>255", [b]), ("list:2:item>255", [b, s]), ("list:2:item>255", [s, b]), ("list:2:item>255", [b, b]),
